@@ -1,31 +1,36 @@
 /-
-  DD.CWrapReviewed — the functions of the C wrappers that the reader of the `.pyx` files cannot
-  follow (they keep node references in C arrays / Python containers), with the fingerprint of
-  their text (comments removed, blanks normalised) AS REVIEWED BY HAND on 2026-09-28 against the
-  reference-counting rules of CUDD:
+  DD.CWrapReviewed — what about the C wrappers rests on a review BY HAND rather than on the
+  path semantics of DD/CWrap.lean.
 
-  * cudd   `BDD._multi_compose`: the vector holds borrowed nodes (live `Function`s, projection
-    functions); `Cudd_bddVectorCompose` returns an unreferenced result, `wrap` references it.
-  * cudd_zdd `_c_compose`: one reference per vector entry, all given back in the `finally`; the
-    result is protected (`cuddRef` … `cuddDeref`) across the release of the vector — without this
-    the result dies when it coincides with a temporary variable node.
-  * cudd_zdd `_compose_root` / `_compose`: every memo entry owns one reference, given back when
-    the memo is dropped; results are referenced across the release of their operands.
-  * cudd_zdd `cuddHashTableQuitZdd`, `_support`, `_clear_markers`: traversal marks, no net change.
+  * `reviewedUncovered`: the functions that the reader of the `.pyx` files cannot follow, with the
+    fingerprint of their text (comments removed, blanks normalised) as reviewed.  EMPTY since the
+    reader follows references kept in containers: `BDD._multi_compose` (cudd.pyx), `_c_compose`,
+    `_compose_root`, `_compose`, `cuddHashTableQuitZdd`, `_support`, `_clear_markers`
+    (cudd_zdd.pyx) are now in `Gen.cRefTraces` and subject to `refTraces_balanced` /
+    `refTraces_noFloatingUse`.  The mechanism stays: a function that the reader has to give up on
+    appears in `Gen.cUncoveredText` and breaks `uncovered_reviewed` (DDProps/C19) until it is read
+    and entered here.
 
-  A change to any of these functions changes the generated fingerprint and breaks
-  `uncovered_reviewed` (DDProps/C19) until the function is read again and this table updated.
+  * `knownArrayLeaks`: functions with a path on which a `PyMem_Malloc`ed array of node pointers is
+    not freed.  cudd.pyx `BDD._multi_compose` (reviewed 2026-09-28): inside the loop that fills `x`,
+    `if g.manager != self.manager: raise ValueError((var, g))` leaves the function before the
+    `try … finally: PyMem_Free(x)`.  Memory only: the array borrows its elements, no node reference
+    is lost.  Not part of the statement of C19; recorded as an observation.
+
+  * `reviewedDeadAssertions`: functions with the idiom `cuddRef(x); if x.ref <= 0: raise
+    AssertionError(x.ref)`.  The assertion cannot fire (the function holds a reference, CUDD's
+    counters saturate); IF it fired, the function would leave holding `x`, the references parked in
+    `vector` / `table`, and in `_c_compose` the array itself.
 -/
 import DD.CTableTypes
 namespace DD
 
-def reviewedUncovered : List (Backend × String × String) := [
-  (.cudd, "BDD._multi_compose", "7a2dfde40052e4a1"),
-  (.cuddZdd, "_c_compose", "bbd522f295269ef0"),
-  (.cuddZdd, "_compose_root", "2d132e79a44ded34"),
-  (.cuddZdd, "_compose", "c5159ac4854bf85a"),
-  (.cuddZdd, "cuddHashTableQuitZdd", "2512e8879e4a923c"),
-  (.cuddZdd, "_support", "f102608a57bdb251"),
-  (.cuddZdd, "_clear_markers", "3fdf2ab34f4f883c")]
+def reviewedUncovered : List (Backend × String × String) := []
+
+/-- (back end, function, the exception that ends the path) -/
+def knownArrayLeaks : List (Backend × String × String) := [(.cudd, "BDD._multi_compose", "ValueError")]
+
+def reviewedDeadAssertions : List (Backend × String) :=
+  [(.cuddZdd, "_c_compose"), (.cuddZdd, "_compose_root"), (.cuddZdd, "_compose")]
 
 end DD
